@@ -450,6 +450,13 @@ func (r *Reader) readReflect(v interface{}) error {
 			return err
 		}
 
+		// 长度来自线上数据：在分配与循环之前先与剩余字节数比较（每个元素至少占 1 字节），
+		// 否则 4 字节的输入即可触发数十 GB 的分配或 2^32 次循环
+		if int64(length) > int64(r.RemainingSize()) {
+			r.err = io.ErrUnexpectedEOF
+			return r.err
+		}
+
 		// 创建切片并读取每个元素
 		slice := reflect.MakeSlice(rv.Type(), int(length), int(length))
 		for i := 0; i < int(length); i++ {
